@@ -36,6 +36,7 @@ var (
 	watchdog = flag.Duration("watchdog", 60*time.Second, "an API call (getter, registrar) or a phase of the driver that makes no progress for this long is a deadlock (senders: twice as long, girc's own write timeout is 30 s)")
 	known    = flag.Bool("known", false, "also provoke the unrepaired known findings (STS upgrade, CTCP FINGER, CTCP handler that registers)")
 	dumpTo   = flag.String("dump", "", "file for the goroutine dump on deadlock")
+	flood    = flag.Bool("flood", true, "Config.AllowFlood: false sends through the rate limiter (ircConn.rate under ircConn.mu), slower")
 )
 
 var nicks = []string{"alice", "bob", "carol", "dave", "erin", "frank", "Grace", "heidi[1]", "ivan^", "judy"}
@@ -242,6 +243,18 @@ func getters(c *girc.Client, r *rand.Rand) {
 // the clean-up of Connect; that is a stall with a bound, not the deadlock we hunt.
 var sendOK int32
 
+// connq hammers the connection queries (Client.mu / ircConn.mu), so that some of them are in
+// flight whenever a connection is set up or torn down.
+func connq(c *girc.Client, r *rand.Rand) {
+	up, err := c.Uptime()
+	since, err2 := c.ConnSince()
+	use(up, err, since, err2, c.IsConnected(), c.Latency())
+	if r.Intn(4) == 0 {
+		st, err3 := c.TLSConnectionState()
+		use(st, err3)
+	}
+}
+
 func senders(c *girc.Client, r *rand.Rand) {
 	if atomic.LoadInt32(&sendOK) == 0 {
 		time.Sleep(200 * time.Microsecond)
@@ -300,8 +313,17 @@ func registrars(c *girc.Client, r *rand.Rand) {
 func main() {
 	flag.Parse()
 	r := rand.New(rand.NewSource(*seed))
-	c := girc.New(girc.Config{Server: "dummy.int", Port: 6667, Nick: "hunter", User: "hunt", Name: "race hunt",
-		AllowFlood: true, RecoverFunc: nil})
+	cfg := girc.Config{Server: "dummy.int", Port: 6667, Nick: "hunter", User: "hunt", Name: "race hunt", AllowFlood: *flood}
+	if !*flood {
+		// Through the rate limiter every Send sleeps a second or more once a few lines were
+		// sent: keep the round short (the fake server does not answer PING, and handlers that
+		// send would hold up event dispatch), the point is concurrent Send/rate calls.
+		cfg.PingDelay = -1
+		if *events > 30 {
+			*events = 30
+		}
+	}
+	c := girc.New(cfg)
 
 	// handlers that call back into the client
 	c.Handlers.Add(girc.ALL_EVENTS, func(cl *girc.Client, e girc.Event) {
@@ -314,12 +336,18 @@ func main() {
 	})
 	c.Handlers.Add(girc.UPDATE_STATE, func(cl *girc.Client, e girc.Event) { use(cl.ChannelList(), cl.GetHost()) })
 	c.Handlers.Add(girc.UPDATE_GENERAL, func(cl *girc.Client, e girc.Event) { use(cl.ServerMOTD(), cl.GetNick()) })
-	c.Handlers.AddBg(girc.PRIVMSG, func(cl *girc.Client, e girc.Event) { cl.Cmd.Reply(e, "ack") })
+	c.Handlers.AddBg(girc.PRIVMSG, func(cl *girc.Client, e girc.Event) {
+		if *flood {
+			cl.Cmd.Reply(e, "ack")
+		}
+	})
 	c.Handlers.Add(girc.JOIN, func(cl *girc.Client, e girc.Event) {
 		if ch := cl.LookupChannel(e.Params[0]); ch != nil {
 			use(ch.Len())
 		}
-		cl.Cmd.Who(e.Params[0])
+		if *flood {
+			cl.Cmd.Who(e.Params[0])
+		}
 	})
 	c.CTCP.Set("*", func(cl *girc.Client, ev girc.CTCPEvent) { use(cl.GetNick(), cl.UserList()) })
 	if *known {
@@ -331,7 +359,7 @@ func main() {
 	phase.Store("start")
 	finished := make(chan struct{})
 	// progress stamps (unix nanoseconds): one per worker, one for the driver
-	nworkers := *workers * 4
+	nworkers := *workers * 5
 	stamps := make([]int64, nworkers+1)
 	kinds := make([]string, nworkers+1)
 	now := func() int64 { return time.Now().UnixNano() }
@@ -378,9 +406,9 @@ func main() {
 	var wg sync.WaitGroup
 	widx := 0
 	for g := 0; g < *workers; g++ {
-		for k, fn := range []func(*girc.Client, *rand.Rand){getters, getters, senders, registrars} {
+		for k, fn := range []func(*girc.Client, *rand.Rand){getters, getters, senders, registrars, connq} {
 			wg.Add(1)
-			kinds[widx] = []string{"getters", "getters", "senders", "registrars"}[k]
+			kinds[widx] = []string{"getters", "getters", "senders", "registrars", "connq"}[k]
 			go func(fn func(*girc.Client, *rand.Rand), sd int64, me int) {
 				defer wg.Done()
 				rr := rand.New(rand.NewSource(sd))
@@ -436,7 +464,17 @@ func main() {
 			}
 		}
 		atomic.StoreInt32(&sendOK, 0)
-		<-marker // blocks for ever if event dispatch is stuck: the watchdog reports it
+		// blocks for ever if event dispatch is stuck: the watchdog reports it
+		ended := false
+		select {
+		case <-marker:
+		case err := <-done:
+			// the client gave the connection up by itself (e.g. its own ping timeout)
+			fmt.Printf("racehunt: round %d: connection ended before the end of the script: %v\n", round, err)
+			ended = true
+			done <- err
+		}
+		_ = ended
 		tick(nworkers)
 		time.Sleep(150 * time.Millisecond)
 		phase.Store(fmt.Sprintf("round %d: close", round))
